@@ -216,8 +216,13 @@ impl Types {
             }
             MemberKind::Int(n) => {
                 let value = permissive::deserialize::<I256, _>(value)?;
+                // NOTE: An N-bit two's complement integer `v` is in range if and
+                // only if all bits above the lower N - 1 bits are copies of the
+                // sign bit, i.e. `v` (or `!v` for negative values) fits in N - 1
+                // bits.
+                let magnitude = if value.is_negative() { !value } else { value };
                 ensure!(
-                    value.unsigned_abs().leading_zeros() + n >= 256,
+                    magnitude.leading_zeros() + n > 256,
                     "value {value:#x} overflows int{n}",
                 );
                 value.to_be_bytes()
